@@ -550,7 +550,7 @@ def _exhaustive(depth):
 def generate(rng, tier, scale=1):
     cases = []
     if tier == "quick":
-        nrand, maxlen, depth = 2500 * scale, 14, 2
+        nrand, maxlen, depth = 5000 * scale, 14, 3
     else:
         nrand, maxlen, depth = 50000 * scale, 40, 4
     if scale == 1:
